@@ -84,9 +84,19 @@ pub enum Tmpl {
     SvcGetInfoNull,
     SvcGetInfoEmpty,
     SvcGetDesc,
+    /// method types that read the object generically (`next_entry`): a JSON value, serde_json's
+    /// map, a BTreeMap, and a type that ignores everything
+    AnyValue,
+    AnyMap,
+    AnyBTree,
+    Ignored,
 }
 
-pub const TMPLS: [Tmpl; 10] = [
+pub const TMPLS: [Tmpl; 14] = [
+    Tmpl::AnyValue,
+    Tmpl::AnyMap,
+    Tmpl::AnyBTree,
+    Tmpl::Ignored,
     Tmpl::EnumEcho,
     Tmpl::EnumPing,
     Tmpl::EnumPingNull,
@@ -113,6 +123,7 @@ impl Tmpl {
             Tmpl::SvcGetInfoNull => ("org.varlink.service.GetInfo", Some("null")),
             Tmpl::SvcGetInfoEmpty => ("org.varlink.service.GetInfo", Some("{}")),
             Tmpl::SvcGetDesc => ("org.varlink.service.GetInterfaceDescription", Some(r#"{"interface":"org.example.x"}"#)),
+            Tmpl::AnyValue | Tmpl::AnyMap | Tmpl::AnyBTree | Tmpl::Ignored => ("org.example.Any", Some(r#"{"k":[1,{"more":true}],"oneway":"not a flag here"}"#)),
         }
     }
 }
@@ -248,6 +259,10 @@ pub fn check_call_text_spelled(ct: &CallText, choices: &[u8], stats: &mut Stats)
         Tmpl::EnumEcho | Tmpl::EnumPing | Tmpl::EnumPingNull | Tmpl::EnumPut => decode_call::<MethodA<'_>>(&text, &stripped, ct.flags),
         Tmpl::Strict => decode_call::<StrictCall>(&text, &stripped, ct.flags),
         Tmpl::SeenAll => decode_call::<SeenAll>(&text, &stripped, ct.flags),
+        Tmpl::AnyValue => decode_call::<Value>(&text, &stripped, ct.flags),
+        Tmpl::AnyMap => decode_call::<serde_json::Map<String, Value>>(&text, &stripped, ct.flags),
+        Tmpl::AnyBTree => decode_call::<std::collections::BTreeMap<String, Value>>(&text, &stripped, ct.flags),
+        Tmpl::Ignored => decode_call::<serde::de::IgnoredAny>(&text, &stripped, ct.flags),
         Tmpl::SvcGetInfo | Tmpl::SvcGetInfoNull | Tmpl::SvcGetInfoEmpty | Tmpl::SvcGetDesc => {
             decode_call::<varlink_service::Method<'_>>(&text, &stripped, ct.flags)
         }
